@@ -140,6 +140,102 @@ def check_shape(dump, docj, opname, coerced, res, seed=None):
 
 
 # ---------------------------------------------------------------------------
+# documents WITHOUT locations: parsed with no_location=True, hand-built / transformed (loc=None, source=None on all or
+# on SOME nodes). validate_ast must return for them too, with the verdict of the located parse of the same text.
+
+def strip_locations(node, rng=None, p=1.0):
+    """in place: loc = None, source = None on every node (rng given: on each node with probability p)"""
+    from py_gql.lang import ast as _ast
+    seen = set()
+
+    def go(n):
+        if isinstance(n, (list, tuple)):
+            for x in n:
+                go(x)
+            return
+        if not isinstance(n, _ast.Node) or id(n) in seen:
+            return
+        seen.add(id(n))
+        if rng is None or rng.random() < p:
+            try:
+                n.loc = None
+                n.source = None
+            except AttributeError:
+                pass
+        for attr in getattr(n, "__slots__", ()):
+            if attr not in ("loc", "source"):
+                go(getattr(n, attr, None))
+    go(node)
+    return node
+
+
+def _unloc_msg(m):
+    """some messages print node reprs, which carry `loc=(a, b)` / `loc=None`"""
+    import re
+    return re.sub(r"loc=(\(\d+, \d+\)|None)", "loc=_", m)
+
+
+def verdict_of(schema, ast):
+    """('accepted' | 'rejected' | 'raises:<Class>:<site>', sorted error messages)"""
+    from py_gql.validation import validate_ast
+    try:
+        v = validate_ast(schema, ast)
+    except RecursionError as e:
+        return "raises:RecursionError:" + raise_site(e), []
+    except Exception as e:  # noqa
+        return "raises:%s:%s" % (type(e).__name__, raise_site(e)), []
+    # formatting / sorting of the error nodes must not raise either
+    try:
+        msgs = sorted(_unloc_msg(str(getattr(e, "message", e))) for e in v.errors)
+        for e in v.errors:
+            e.to_dict()
+            str(e)
+    except Exception as e:  # noqa
+        return "raises:%s:error-formatting" % type(e).__name__, []
+    return ("rejected" if v.errors else "accepted"), msgs
+
+
+def unlocated_variants(ctx, schema, text, located_ast, full):
+    """(kind, Document) for the same text without (all / some) locations"""
+    import copy
+    from py_gql.lang import parse
+    kinds = ["no_location", "stripped", "partly-stripped"]
+    if not full:
+        if ctx.rng.random() > 0.6:
+            return []
+        kinds = [ctx.rng.choice(kinds)]
+    out = []
+    for k in kinds:
+        if k == "no_location":
+            out.append((k, parse(text, no_location=True)))
+        elif k == "stripped":
+            out.append((k, strip_locations(copy.deepcopy(located_ast))))
+        else:
+            out.append((k, strip_locations(copy.deepcopy(located_ast), ctx.rng, 0.5)))
+    return out
+
+
+def check_unlocated(ctx, schema, base, stream, label, text, located_ast, located_status, located_msgs):
+    # all three variants for the fixed cases (and for 4 in 10 documents of the thorough tier), one at random otherwise
+    full = stream == "fixed" or (bool(ctx.n(0, 1)) and ctx.rng.random() < 0.4)
+    try:
+        variants = unlocated_variants(ctx, schema, text, located_ast, full)
+    except Exception as e:  # noqa
+        ctx.stat("unlocated:harness-error:" + type(e).__name__)
+        return
+    for kind, doc in variants:
+        ctx.count()
+        st, msgs = verdict_of(schema, doc)
+        ctx.stat("unlocated:%s:%s" % (kind, st.split(":")[0]))
+        if st.startswith("raises:"):
+            ctx.fail("validate-raises-unlocated:%s" % st[len("raises:"):],
+                     "validate_ast raises on a document without locations (%s) instead of returning its list of errors" % kind,
+                     dict(base, unlocated=kind, located_verdict=located_status))
+        elif st != located_status or msgs != located_msgs:
+            ctx.fail("unlocated-verdict-differs:%s:%s->%s" % (kind, located_status, st),
+                     "the verdict (or the error messages) of validate_ast on a document without locations differs from the "
+                     "verdict on the located parse of the same text", dict(base, unlocated=kind, located=located_msgs[:5], got=msgs[:5]))
+
 
 def one_document(ctx, schema, holder, dump, sdl, enum_kind, label, text, variables, opname, lean_batch, stream):
     from py_gql.lang import parse
@@ -172,6 +268,11 @@ def one_document(ctx, schema, holder, dump, sdl, enum_kind, label, text, variabl
                  "validate_ast raises %s (in %s) instead of returning its list of errors" % (type(e).__name__, site),
                  dict(base, small=shrink_raise(schema, text, type(e), site)))
         return "raises:" + type(e).__name__
+    try:
+        located_msgs = sorted(_unloc_msg(str(getattr(e, "message", e))) for e in v.errors)
+        check_unlocated(ctx, schema, base, stream, label, text, ast, "rejected" if v.errors else "accepted", located_msgs)
+    except RecursionError:
+        ctx.stat("unlocated:harness-error:RecursionError")
     if v.errors:
         ctx.stat(stream + ":rejected")
         if label:
@@ -343,7 +444,7 @@ def compare_with_fresh_process(ctx, sdl, enum_kind, judged):
 
 def run(ctx):
     rng = ctx.rng
-    n_schemas = ctx.n(12, 60)
+    n_schemas = ctx.n(9, 60)
     use_lean = ctx.model_ok and ctx.driver.available()
     lean_batch = [] if use_lean else None
     fixed_cases(ctx, lean_batch)
@@ -433,6 +534,13 @@ FIXED = [
     ("directive-null-variable-inline", "query($v: Boolean = true){ n { ... on Node @skip(if:$v) { id } } a }", {"v": None}),
     ("directive-null-variable-default-used", "query($v: Boolean = true){ b @skip(if:$v) { id } a }", {}),
     ("list-literal-at-scalar-argument", "{ a(i: [1]) }", {}),
+    ("nested-subconflict", "{ b { b { x: id } } b { b { x: a } } }", {}),
+    ("nested-subconflict-deep", "{ b { b { b { x: id y: a } } } b { b { b { y: id x: a } } } }", {}),
+    ("nested-subconflict-args", "{ b { b { t(x: 1) } } b { b { t(x: 2) } } }", {}),
+    ("nested-subconflict-fragments", "{ b { ...X1 } b { ...X2 } } fragment X1 on Ob { b { x: id } } fragment X2 on Ob { b { x: a } }", {}),
+    ("nested-subconflict-abstract", "{ n { b { x: id } } n { b { x: t } ... on Ob { b { x: a } } } }", {}),
+    ("nested-subconflict-type", "{ u { ... on Ob { b { x: a } } ... on Other { b { x: id } } } }", {}),
+    ("nested-subconflict-two", "{ b { x: id b { y: id } } b { x: a b { y: a } } }", {}),
     ("null-literal-vs-default", "{ lim lim(limit: null) }", {}),
     ("null-literal-vs-default-reversed", "{ lim(limit: null) lim }", {}),
     ("null-literal-vs-default-object", "{ lim(o: null) lim }", {}),
@@ -556,11 +664,24 @@ def replay(ctx, data):
             ok = False
     for t in {text, inp["document"]}:
         try:
-            v = validate_ast(schema, parse(t))
+            located = parse(t)
+            v = validate_ast(schema, located)
         except Exception as e:  # noqa
             print("validate_ast raises %s: %s" % (type(e).__name__, e))
             ok = False
             continue
+        # the same text without locations (all / some): same verdict, no exception
+        import copy
+        import random as _random
+        lst, lmsgs = verdict_of(schema, located)
+        variants = [("no_location", parse(t, no_location=True)), ("stripped", strip_locations(copy.deepcopy(located)))]
+        variants += [("partly-stripped", strip_locations(copy.deepcopy(located), _random.Random(k), 0.5)) for k in range(6)]
+        for kind, doc in variants:
+            st, msgs = verdict_of(schema, doc)
+            if st != lst or msgs != lmsgs:
+                print("without locations (%s): %s; located: %s" % (kind, st, lst))
+                ok = False
+                break
         if v.errors:
             continue
         c = K.Case()
